@@ -64,7 +64,7 @@ def exec_step(world, step, idx):
     elif op == "send":
         m = resolve(world, step["m"])
         if m is not UNRESOLVED:
-            world.send(step["c"], [m], step=idx, seg=step.get("seg"))
+            world.send(step["c"], [m], step=idx, seg=step.get("seg"), wire=step.get("wire"))
     elif op == "batch":
         ms = resolve(world, step["ms"])
         if ms is not UNRESOLVED and ms:
@@ -93,6 +93,13 @@ def exec_step(world, step, idx):
                     dt = (step["phase"] - since) % PERIOD
                     if dt <= 0:
                         dt += PERIOD
+        if dt is not None and dt >= 1.0:
+            # a TCP teardown does not stay pending while a second or more passes (the server's
+            # own close timeout drops the transport): connections left in the close handshake
+            # are finished first
+            for cid, c in sorted(world.conns.items()):
+                if c.alive and c.lingering:
+                    world.drop(cid, "finish", step=idx)
         world.advance(dt, step=idx)
         world.count("sim_seconds", dt)
     elif op == "jump":
